@@ -199,6 +199,7 @@ static void runCase(uint64_t caseId, Rng rng, size_t nsteps, unsigned mode, unsi
 	auto pickRst = [&]() { return (hlim::RegisterAttributes::ResetType) rng.below(3); };
 	auto pickAct = [&]() { return rng.chance(1, 2) ? hlim::RegisterAttributes::Active::HIGH : hlim::RegisterAttributes::Active::LOW; };
 	size_t nroots = rng.range(1, 2);
+	std::vector<std::pair<hlim::Clock*, ClockConfig>> clockCfgs; // what every clock was asked to be (derived: unset = inherited from the parent)
 	for (size_t i = 0; i < nroots; i++) {
 		auto f = rng.pick(smallFreqs);
 		ClockConfig cfg;
@@ -209,6 +210,7 @@ static void runCase(uint64_t caseId, Rng rng, size_t nsteps, unsigned mode, unsi
 		cfg.resetType = pickRst();
 		cfg.resetActive = pickAct();
 		w.clocks.emplace_back(cfg);
+		clockCfgs.push_back({w.clocks.back().getClk(), cfg});
 	}
 	size_t nder = rng.below(3);
 	for (size_t i = 0; i < nder; i++) {
@@ -221,6 +223,7 @@ static void runCase(uint64_t caseId, Rng rng, size_t nsteps, unsigned mode, unsi
 		if (rng.chance(1, 3)) cfg.triggerEvent = pickTrig();
 		if (rng.chance(1, 4)) { cfg.resetType = pickRst(); if (*cfg.resetType == hlim::RegisterAttributes::ResetType::NONE) cfg.initializeRegs = true; }
 		w.clocks.push_back(w.clocks[parent].deriveClock(cfg));
+		clockCfgs.push_back({w.clocks.back().getClk(), cfg});
 	}
 	// a clock that drives nothing: WaitClock on it takes the "not part of the simulation" path
 	size_t freeClock = ~0ull;
@@ -228,6 +231,7 @@ static void runCase(uint64_t caseId, Rng rng, size_t nsteps, unsigned mode, unsi
 		auto f = rng.pick(smallFreqs);
 		ClockConfig cfg; cfg.absoluteFrequency = CR{f.first, f.second}; cfg.name = "freeclk"; cfg.resetName = "freerst";
 		w.clocks.emplace_back(cfg);
+		clockCfgs.push_back({w.clocks.back().getClk(), cfg});
 		freeClock = w.clocks.size() - 1;
 	}
 
@@ -290,6 +294,14 @@ static void runCase(uint64_t caseId, Rng rng, size_t nsteps, unsigned mode, unsi
 		  << " trig=" << trigNames[(int) c->getTriggerEvent()] << " psync=" << c->getPhaseSynchronousWithParent()
 		  << " rst=" << "SAN"[(int) ra.resetType] << " act=" << (ra.resetActive == hlim::RegisterAttributes::Active::HIGH ? 'H' : 'L')
 		  << " nodes=" << !c->getClockedNodes().empty() << '\n';
+	}
+	for (auto &[c, cfg] : clockCfgs) {
+		o << "ccfg " << c->getId() << " mul=" << (cfg.frequencyMultiplier ? rat(*cfg.frequencyMultiplier) : cfg.absoluteFrequency ? rat(*cfg.absoluteFrequency) : std::string("~"))
+		  << " name=" << (cfg.name ? *cfg.name : std::string("~")) << " rname=" << (cfg.resetName ? *cfg.resetName : std::string("~"))
+		  << " trig=" << (cfg.triggerEvent ? std::string(1, trigNames[(int) *cfg.triggerEvent]) : std::string("~"))
+		  << " psync=" << (cfg.phaseSynchronousWithParent ? std::string(*cfg.phaseSynchronousWithParent ? "1" : "0") : std::string("~"))
+		  << " rst=" << (cfg.resetType ? std::string(1, "SAN"[(int) *cfg.resetType]) : std::string("~"))
+		  << " act=" << (cfg.resetActive ? std::string(*cfg.resetActive == hlim::RegisterAttributes::Active::HIGH ? "H" : "L") : std::string("~")) << '\n';
 	}
 	for (size_t i = 0; i < npins; i++) o << "pin " << i << ' ' << W << '\n';
 	for (auto &l : regLines) o << l << '\n';
